@@ -1126,6 +1126,9 @@ type c15Checker struct {
 	stack   []c15Frame
 	qInText bool // PDF 2.0: q/Q may appear in text objects
 	n       int
+	// tolerant: see closePair
+	tolerant bool
+	crossed  string
 }
 
 var c15OpCat = func() map[string]string {
@@ -1184,13 +1187,26 @@ func (k *c15Checker) apply(name string) string {
 		}
 		return "figure9/" + cat + "-in-" + k.ctx.String()
 	}
+	// closePair removes the frame the closing operator belongs to.  A closer
+	// whose frame is not the innermost one is improper nesting; a tolerant
+	// checker notes it in k.crossed, removes the innermost frame of the kind
+	// and goes on, so that the balance at the end can still be judged.
 	closePair := func(kind string) string {
 		if k.top() == kind {
+			k.stack = k.stack[:len(k.stack)-1]
 			return ""
 		}
-		for _, f := range k.stack {
-			if f.kind == kind {
-				return "improper-nesting/" + name + "-while-" + k.top() + "-open"
+		for i := len(k.stack) - 1; i >= 0; i-- {
+			if k.stack[i].kind == kind {
+				e := "improper-nesting/" + name + "-while-" + k.top() + "-open"
+				if !k.tolerant {
+					return e
+				}
+				if k.crossed == "" {
+					k.crossed = e
+				}
+				k.stack = append(k.stack[:i:i], k.stack[i+1:]...)
+				return ""
 			}
 		}
 		return "unbalanced/" + name + "-without-" + kind
@@ -1221,7 +1237,6 @@ func (k *c15Checker) apply(name string) string {
 		if e := closePair("q"); e != "" {
 			return e
 		}
-		k.stack = k.stack[:len(k.stack)-1]
 		return ""
 	case "BT":
 		if !in(c15Page) {
@@ -1237,7 +1252,6 @@ func (k *c15Checker) apply(name string) string {
 		if e := closePair("BT"); e != "" {
 			return e
 		}
-		k.stack = k.stack[:len(k.stack)-1]
 		k.ctx = c15Page
 		return ""
 	case "BMC", "BDC":
@@ -1253,7 +1267,6 @@ func (k *c15Checker) apply(name string) string {
 		if e := closePair("BMC"); e != "" {
 			return e
 		}
-		k.stack = k.stack[:len(k.stack)-1]
 		return ""
 	case "BX":
 		k.stack = append(k.stack, c15Frame{"BX", k.ctx})
@@ -1262,7 +1275,6 @@ func (k *c15Checker) apply(name string) string {
 		if e := closePair("BX"); e != "" {
 			return e
 		}
-		k.stack = k.stack[:len(k.stack)-1]
 		return ""
 	}
 	switch c15OpCat[name] {
@@ -1592,7 +1604,7 @@ func c15BuilderCase(c *kit.Case) {
 	}
 	newBuilder := func() *builder.Builder { return builder.New(ct, nil, version) }
 	newChecker := func() *c15Checker {
-		k := &c15Checker{qInText: version >= pdf.V2_0}
+		k := &c15Checker{qInText: version >= pdf.V2_0, tolerant: true}
 		if ct == content.Glyph {
 			k.ctx = c15GlyphStart
 		}
@@ -1712,12 +1724,21 @@ func c15BuilderCase(c *kit.Case) {
 	// 2. independent structure check of the operators read back
 	chk := newChecker()
 	for i, op := range got {
-		if e := chk.apply(string(op.Name)); e != "" {
+		was := chk.crossed
+		e := chk.apply(string(op.Name))
+		if e == "" && was == "" {
+			e = chk.crossed // the first crossed pair: reported, and the walk goes on
+		}
+		if e != "" {
 			c.Violationf("builder/"+e, "%s\noperator %d (%s) of the stream the Builder produced breaks the rule %q (context %s, open %v)\nstream %s",
 				ctx, i, op.Name, e, chk.ctx, chk.stack, kit.Q(raw))
-			return
+			if chk.crossed != e {
+				return
+			}
 		}
 	}
+	// whatever the nesting, a stream that Close() accepts has a closer for
+	// every opener
 	if (closeErr == nil) != chk.balanced() {
 		c.Violationf("builder/close-verdict", "%s\nBuilder.Close() = %v but the stream ends in context %s with %v open\nstream %s",
 			ctx, closeErr, chk.ctx, chk.stack, kit.Q(raw))
